@@ -149,6 +149,16 @@ CHECKS = {
             rapid("messages", "^TestC14Messages$", 600000, 4, timeout=3000),
         ],
     },
+    "C15": {
+        "quick": [
+            plain("sweep", "^TestC15Sweep$"),
+            rapid("caller", "^TestC15Caller$", 10000, 4),
+        ],
+        "thorough": [
+            plain("sweep", "^TestC15Sweep$"),
+            rapid("caller", "^TestC15Caller$", 150000, 16, timeout=3000),
+        ],
+    },
     "C16": {
         "quick": [
             plain("regress", "^TestRegressC16"),
@@ -179,6 +189,7 @@ CHECKS = {
 LEVELS = {"C10": "fault_enumeration"}
 
 RULES = {
+    "C15": "cases = generated call paths executed for real: a logger prepared by 0-6 Sugar/Desugar/With/WithLazy/Named/WithOptions steps, AddCallerSkip(k) with k in 0..4 below exactly k non-inlined wrapper frames, below a recursion of depth {0,1,10,50,63,64,65,200,1000}, through every front end (Logger level methods, Log, Check+Write, all 33 Sugar methods, NewStdLog/NewStdLogAt Print/Printf/Println/Output, RedirectStdLog+log.Print, globals L/S, slog.Logger methods over the zapslog handler), stack-trace enabler = arbitrary level subset or threshold; plus a deterministic sweep of every front end x skip 0..2 x depth {0,100}. Oracle = the site captured on the same source line with an independent runtime.Callers walk. Non-trivial = (a Sugar/Desugar conversion and skip >= 1) or (depth >= 64 with the stack enabled). Distinct = distinct (front end, skip, depth, conversions, stack on/off, conversion chain).",
     "C14": "cases = argument lists of length 0-9 mixing typed zap.Fields (from Spec trees), string keys (incl. empty, duplicate, 'error', 'ignored'), non-string keys (int, custom string type, slice, bool, float, struct, []byte, pointer), bare errors (plain, verbose, group, nil-pointer, panicking), nil and arbitrary values of every dynamic type zap.Any special-cases, in every order, through Debugw..Fatalw, Logw, With, WithLazy and With followed by a *w call, on enabled and fully disabled loggers; templates from a grammar of % verbs with 0-5 arguments through print-, printf-, println-style and Log/Logf/Logln at every level. Oracle = independent reference sweep from the With documentation (fields compared by key/type/recorded calls; every diagnostic must be matched by an Error-level entry identifying the item) and fmt.Sprint/Sprintf/Sprintln. Non-trivial = a Field or error before a pair (parity shift) or any invalid item; message job: formatting with arguments. Distinct = distinct (mode, level, argument kind sequence).",
     "C11": "cases = first N and thereafter M in 0..6 plus large values, tick 1ns..10s, sequences of 1-60 entries with level in {-2,-1,0,1,2,5,6,100}, message from an alphabet with pre-computed FNV-colliding pairs, timestamps advancing by {0,1,tick-1,tick,tick+1,...}, wrapped core threshold drawn, entries through the sampler, two With-derived samplers (shared budget) and an independent sampler (own budget), decision hook recorded; a Logger path with a stepped clock; concurrent: one entry opens a window, then 2-8 goroutines x 1-200 entries of the same key inside it. Reference model from the statement using hash/fnv. Non-trivial = (entry exactly at a window end and a dropped entry and a thereafter admission) or a colliding pair sharing a budget. Distinct = distinct (N, M, tick, threshold, class flags, length class).",
     "C06": "cases = configurations drawn from the product core {JSON over a 1 MiB/1 h BufferedWriteSyncer over a recording sink, tee with observer in either order, no-op, sampler that drops everything, level-increased} x threshold -1..7 x development on/off x hook {default, nil, WriteThenNoop, WriteThenGoexit, custom recording} x level {DPanic, Panic, Fatal} x every front end (Logger methods, Log, Check+Write, all Sugar variants, NewStdLogAt Print/Printf/Println/Output, RedirectStdLogAt, zapgrpc Fatal*, globals L/S; completeness checked by reflection); a deterministic sweep of 5130 configurations; child processes re-executing the test binary with the real default actions, a real file and a buffered sink. Non-trivial = entry disabled/no-op/sampled-out, nil or no-op hook, or enabled entry behind the buffer. Distinct = distinct configurations.",
@@ -204,6 +215,11 @@ ASSUMPTIONS = {
 TRUST = "Trusted base: Go toolchain/runtime, rapid's generators and shrinker, the reference model/oracle code in /verif/harness/props, and the standard-library packages used as reference implementations. Search-based: absence of a counterexample in the generated cases is not a proof."
 
 META = {
+    "C15": {
+        "technique": "property-based testing (rapid) over generated call paths executed for real, compared with an independent runtime.Callers capture taken on the same source line",
+        "level_text": "Every generated call path is really executed; Entry.Caller must equal file, line and function of the frame k levels above the call line and Entry.Stack must be present exactly for the configured levels and equal the complete real chain from that frame outwards (whatever its depth, minus the final runtime frame). Exploration: the space of conversion chains, skips, depths and front ends is a large product that is sampled, with a deterministic sweep of all front ends.",
+        "level_note": TRUST + " The slog front end is generated with WithCallerSkip(0) only (the handler uses the call site slog recorded). runtime.Callers/CallersFrames is the reference for the real call chain.",
+    },
     "C14": {
         "technique": "property-based testing (rapid): generated loosely-typed argument lists vs an independent reference sweep; differential message formatting against package fmt",
         "level_text": "For each generated argument list the main entry observed through an observer core must carry exactly the reference fields in order (typed fields untouched, pairs as zap.Any would encode them, first bare error under 'error'), every dangling key / non-string-key pair (with position, key and value) / additional bare error must be identified by its own Error-level entry, nothing may panic, and a disabled logger must emit nothing; messages must equal fmt.Sprint / fmt.Sprintf (template verbatim without arguments) / fmt.Sprintln minus the newline. Exploration over an unbounded argument space.",
